@@ -275,6 +275,29 @@ typedef struct {
 } c06b_out;
 void c06b_run(const c06b_case *c, c06b_out *out);
 
+/* (k) several registrations of ONE thread become ready during one busy callback; the callback dispatched first removes others */
+#define C06K_MAX_CH 6
+#define C06K_LOG 192
+typedef struct {
+	uint8_t nch;
+	uint8_t kind[C06K_MAX_CH];	/* 1 read on a socket pair, 2 write on a socket pair, 3 timer */
+	uint16_t flags[C06K_MAX_CH];	/* TP_F_* */
+	uint8_t period_ms[C06K_MAX_CH];	/* timers: 1..3 */
+	uint8_t kills[C06K_MAX_CH];	/* bit t: the first callback of this channel removes channel t */
+	uint8_t kill_op[C06K_MAX_CH];	/* 0 delete, 1 disable */
+	uint8_t busy_ms;		/* the registering callback stays busy this long after making everything ready */
+	tp_plans plans;
+} c06k_case;
+typedef struct { uint8_t type /* 1 callback, 2 removal call, 3 add */, ch, event; int rc; } c06k_rec;
+typedef struct {
+	int setup_rc, hang, never_fired /* bit mask of channels that were never removed and never fired */, log_overflow, wrong_thread;
+	uint32_t nlog;
+	c06k_rec log[C06K_LOG];
+	uint32_t pre_live_fds;
+	tp_res_stats res;
+} c06k_out;
+void c06k_run(const c06k_case *c, c06k_out *out);
+
 /* (c) process events: real child processes, pidfd accounting through the interposed syscall() */
 #define C06C_MAX_CH 3
 #define C06C_MAX_CMDS 16
@@ -291,6 +314,8 @@ typedef struct {
 	uint8_t nch;
 	uint8_t exit_code[C06C_MAX_CH];
 	uint8_t by_signal[C06C_MAX_CH];	/* the child is killed with SIGKILL instead of exiting by itself */
+	uint8_t dirty[C06C_MAX_CH];	/* the user record was used before for a read event that ended up disabled and whose descriptor was closed
+					 * without a delete (stale state in the record) */
 	uint8_t not_child[C06C_MAX_CH];	/* the watched process is a grandchild re-parented away from the test process: the pool thread cannot reap it */
 	uint8_t ncmds;
 	c06c_cmd cmds[C06C_MAX_CMDS];
